@@ -6,6 +6,7 @@ import (
 	"strings"
 
 	"vh/core"
+	"vh/outmon"
 	"vh/scen"
 )
 
@@ -124,6 +125,21 @@ func c01Judge(rep *core.Report, c *CaseResult) {
 			Detail: c.FmtMsg, Files: c.ReplayFiles()})
 	}
 	outBase := s.OutRel()[strings.LastIndex(s.OutRel(), "/")+1:]
+	if len(c.TypeErrs) > 0 {
+		// is the scenario package healthy without the generated file? If not, the generator (not
+		// convergen) is at fault: infrastructure trouble, never a verdict.
+		l := outmon.NewLoader(scen.ModName, c.Root)
+		l.Exclude[c.OutPath] = true
+		if ld, err := l.Load(s.PkgPath()); err != nil || ld == nil || len(ld.Errs) > 0 {
+			// errors that only stem from the missing generated functions (zz_use-style references) do not occur in our scenarios
+			msg := ""
+			if ld != nil && len(ld.Errs) > 0 {
+				msg = ld.Errs[0]
+			}
+			rep.Inconclusive("scenario package " + s.ID + " does not compile by itself: " + msg)
+			return
+		}
+	}
 	seen := map[string]bool{}
 	for _, msg := range c.TypeErrs {
 		sym := classifyTypeErr(msg)
@@ -142,6 +158,14 @@ func c01Judge(rep *core.Report, c *CaseResult) {
 		}
 		if line == 0 {
 			feat["where"] = "other-file"
+		}
+		if s.Features["pkgname_alias_collides"] == "true" {
+			feat["pkgmode"] = "alias-collide"
+		} else if s.Features["pkgname_differs_from_dir"] == "true" {
+			feat["pkgmode"] = "differs"
+		}
+		if m := regexp.MustCompile(`undefined: (\w+)$`).FindStringSubmatch(msg); m != nil {
+			feat["undefined"] = m[1]
 		}
 		v := &core.Violation{Property: "C01", Monitor: "typecheck", Symptom: sym, Features: feat, Case: s.ID,
 			Detail: fmt.Sprintf("%s\n  in %s: %s", msg, fn, core.Trunc(item, 300)), Files: c.ReplayFiles()}
@@ -218,6 +242,12 @@ func RunC01(e *core.Env) int {
 			}
 		}
 	}
+	if cb, err := NewBatch(e, "corpus", corpusC01()); err == nil {
+		cb.RunTool(e, true)
+		for _, c := range cb.Cases {
+			c01Judge(rep, c)
+		}
+	}
 	runBroadBatches(e, rep, "broad", n, 200, func(c *CaseResult) {
 		c01Judge(rep, c)
 		if len(c.TypeErrs) == 0 && c.Out != nil {
@@ -257,3 +287,16 @@ var (
 	reDigits = regexp.MustCompile(`\d+`)
 	reIdent  = regexp.MustCompile(`\b(cv|pre|pos|S|D|SN|DN|SM|AX|Conv[A-Z])N\b`)
 )
+
+// corpusC01 holds the witness of KF-C01-unimported-package-name-collision.
+func corpusC01() []*scen.Scenario {
+	b := scen.NewBuilder(nil, scen.Profile{}, "kw-c01-collide", "kwc01a")
+	b.PkgNameMode = "alias-collide"
+	b.Struct("m", "SN1", "X int")
+	b.Struct("m", "DN1", "X int")
+	b.Struct("", "S", "A m.SN1", "L []ext.Shape")
+	b.Struct("", "D", "A m.DN1", "L []ext.Shape")
+	m := &scen.Method{Name: "Collide", Src: scen.Param{Type: "*S"}, Dst: scen.Param{Type: "*D"}, Notations: []scen.Notation{scen.N("typecast")},
+		Probes: []scen.Probe{{Dst: "A", Mech: "diff", DstT: "m.DN1", SrcT: "m.SN1"}, {Dst: "L", Mech: "slice", DstT: "[]ext.Shape", SrcT: "[]ext.Shape"}}}
+	return []*scen.Scenario{b.Manual(m)}
+}
